@@ -160,4 +160,30 @@ theorem conc_sync_crash_atomic_log
   exact ⟨fun cp hcp img himg => (key cp hcp img himg).1,
     fun hph img himg => (key _ (List.prefix_refl _) img himg).2 hph⟩
 
+/-- **recovery is idempotent under interruption, for concurrent recovery traces** (helper form of `Nomt.C03.T3_3…`):
+`d` is an image whose WAL `w` carries the sequence number of its meta page (so recovery redoes it).  A concurrent
+recovery trace started on `d` that passes the order discipline of phase 2 and whose effects satisfy the content clauses
+(hash-table writes replay `w`, the WAL is truncated only when the table as the process sees it holds every diff, the
+rollback log is only pruned outside the live range): EVERY image of EVERY prefix abstracts to the state of `d`, and its
+WAL is `d`'s or empty. -/
+theorem conc_recovery_idempotent
+    (d : Disk Content MetaRec WalRec LogRec) (w : WalRec) (hw : d.wal = some w) (hs : P.walSeqn w = P.seqn d.mt)
+    (ct : List (CEv Content MetaRec WalRec LogRec))
+    (hord : cAll ordChk 2 (cinit d) ct)
+    (hcont : cAll (contChk (AllowedPreL' P L d) (contPostL P L d d.mt w)) 2 (cinit d) ct) :
+    ∀ cp, cp <+: ct → ∀ img, IsCImage (crun (cinit d) cp) img →
+      absOfL P L img = absOfL P L d ∧ (img.wal = d.wal ∨ img.wal = none) := by
+  have hacc : cAll (accChk (AllowedPreL' P L d) (okPostL P L d d.mt w)) 2 (cinit d) ct :=
+    cAll_mono _ _ (fun ph s ev h => acc_of_ord_contL P L d d d.mt w ph s ev h.1 h.2) _ _ _
+      (cAll_and _ _ _ _ _ hord hcont)
+  intro cp hcp img himg
+  rw [isCImage_lin] at himg
+  have hq := postG_postOKL P L d d.mt w _ _
+    (accepted_bridge_phase2 (AllowedPreL' P L d) (okPostL P L d d.mt w) (okPostL_stab P L d d.mt w) d ct hacc cp hcp)
+  have hg : GoodC P d d.mt w d := ⟨rfl, fun _ _ _ => rfl, fun _ => Or.inl rfl, Or.inl hw⟩
+  have h := phaseCL_images P L d d.mt w hs d hg rfl (lin d cp) hq img himg
+  have h0 : absOf P d = absNew P d d.mt w := goodC_abs P d d.mt w hs d hg
+  refine ⟨?_, by rw [hw]; exact h.2⟩
+  rw [h.1]; simp only [absOfL, h0]
+
 end NomtDisk
